@@ -89,22 +89,16 @@ func drawC06(rt *rapid.T, tier string) C06Scenario {
 		Calm:      rapid.IntRange(0, 2).Draw(rt, "calm"),
 		TapeSeed:  rapid.Uint64().Draw(rt, "tape_seed"),
 	}
-	nr := rapid.IntRange(0, 3).Draw(rt, "readers")
-	for i := 0; i < nr; i++ {
-		ns := rapid.IntRange(1, 3).Draw(rt, "sessions")
-		var ss []C06Session
-		for j := 0; j < ns; j++ {
-			ss = append(ss, C06Session{
-				SleepMs: rapid.SampledFrom([]int{0, 0, 3, 29, 53, 71}).Draw(rt, "sleep"),
-				Uses:    rapid.IntRange(0, 3).Draw(rt, "uses"),
-				HoldMs:  rapid.SampledFrom([]int{0, 0, 0, 11, 67}).Draw(rt, "hold"),
-			})
+	genSession := rapid.Custom(func(rt *rapid.T) C06Session {
+		return C06Session{
+			SleepMs: rapid.SampledFrom([]int{0, 0, 3, 29, 53, 71}).Draw(rt, "sleep"),
+			Uses:    rapid.IntRange(0, 3).Draw(rt, "uses"),
+			HoldMs:  rapid.SampledFrom([]int{0, 0, 0, 11, 67}).Draw(rt, "hold"),
 		}
-		sc.Readers = append(sc.Readers, ss)
-	}
-	no := rapid.IntRange(0, 5).Draw(rt, "reloads")
-	for i := 0; i < no; i++ {
-		o := C06Reload{
+	})
+	sc.Readers = rapid.SliceOfN(rapid.SliceOfN(genSession, 1, 3), 0, 3).Draw(rt, "readers")
+	genReload := rapid.Custom(func(rt *rapid.T) C06Reload {
+		return C06Reload{
 			Full:    rapid.Bool().Draw(rt, "full"),
 			HasKey:  rapid.IntRange(0, 3).Draw(rt, "has_key") != 0,
 			OpenErr: rapid.IntRange(0, 5).Draw(rt, "open_err") == 0,
@@ -112,8 +106,9 @@ func drawC06(rt *rapid.T, tier string) C06Scenario {
 			DelayMs: rapid.SampledFrom(c06Delays).Draw(rt, "delay"),
 			After:   rapid.Bool().Draw(rt, "after"),
 		}
-		sc.Reloads = append(sc.Reloads, o)
-	}
+	})
+	sc.Reloads = rapid.SliceOfN(genReload, 0, 5).Draw(rt, "reloads")
+	no := len(sc.Reloads)
 	sc.ShutdownAt = rapid.IntRange(0, no).Draw(rt, "shutdown_at")
 	sc.Tape = rapid.SliceOfN(rapid.Uint8(), 0, 96).Draw(rt, "tape")
 	return sc
